@@ -334,8 +334,8 @@ func inMathUnary(c *Ctx, fr *Frame, fn *ssa.Function, a []Value) Value {
 		}
 		return c.tb.F64(r)
 	}
-	if c.w.cfg.FloatMode == "abstract" {
-		return c.absFloat("math."+fn.Name(), t, nil)
+	if c.w.cfg.FloatMode == "abstract" && fn.Name() == "Exp" {
+		return c.absFloat("math.Exp", t, t)
 	}
 	panic(unsupported("math." + fn.Name() + " of symbolic float"))
 }
